@@ -29,6 +29,7 @@ import (
 
 // c10Tie emits the classification line of a copy against its original.
 func c10Tie(c *Ctx, name string, orig, cp interface{}) {
+	c10Register(name)
 	c.Emit("table "+name, strings.Join(c10Classify(orig, cp), ","))
 	c.Count("type:" + name)
 }
